@@ -321,6 +321,9 @@ class Program:
             for c in d["docs"]:
                 self.docs[c["path"]] = c["doc"]
             self.stolen += d["stolen"]
+        if self.stolen:
+            # a body the extractor could not read might contain a violation: fail closed
+            raise Inconclusive("the extractor could not read %d bodies (consumed by the compiler): %s" % (len(self.stolen), self.stolen[:5]))
 
     def hir(self, crate_file):
         if crate_file not in self._hir:
